@@ -808,7 +808,9 @@ pub fn run_case(out: &mut Out, h: &Head, kind: &str, next: &mut dyn FnMut(&[usiz
                     }
                     if let (LineKind::Adv(ms), Some(e)) = (&l.kind, since.as_mut()) {
                         *e += *ms;
-                        if *e >= 1100 && !cancelled {
+                        // "bounded": ten times the implementation's own second (that exact constant is the
+                        // LTS's business, checked by trace admission)
+                        if *e >= 10_000 && !cancelled {
                             out.fail(
                                 "C20:cancel-returns-within-timeout",
                                 &format!("{}:drain-exceeds-one-second", h.cfg.kind()),
@@ -1071,22 +1073,19 @@ fn directed(out: &mut Out) {
     );
     // cancel while online, the final Offline withheld, other traffic arriving every 400 ms: the shutdown
     // wait is ONE second in total (not one second per event), so the third advance reports Cancelled
-    run_fixed(
-        out,
-        &h,
-        "directed",
-        &[
-            b(vec![El::On], 510, "aaa"),
-            b(vec![El::Cancel], 520, "aaa"),
-            Line { kind: LineKind::Adv(400), now: 530, pol: Pol::ACCEPT },
-            b(vec![El::Node], 540, "aaa"),
-            Line { kind: LineKind::Adv(400), now: 550, pol: Pol::ACCEPT },
-            b(vec![El::St(false, true)], 560, "aaa"),
-            Line { kind: LineKind::Adv(400), now: 570, pol: Pol::ACCEPT },
-            b(vec![El::Junk], 580, "aaa"),
-            Line { kind: LineKind::Adv(400), now: 590, pol: Pol::ACCEPT },
-        ],
-    );
+    {
+        let mut lines = vec![b(vec![El::On], 510, "aaa"), b(vec![El::Cancel], 520, "aaa")];
+        let mut now = 530;
+        // 26 x 400 ms > the 10 s the direct oracle allows, with an event in every gap
+        for k in 0..26 {
+            lines.push(Line { kind: LineKind::Adv(400), now, pol: Pol::ACCEPT });
+            now += 10;
+            lines.push(b(vec![match k % 3 { 0 => El::Node, 1 => El::St(false, true), _ => El::Junk }], now, "aaa"));
+            now += 10;
+        }
+        lines.push(Line { kind: LineKind::Adv(400), now, pol: Pol::ACCEPT });
+        run_fixed(out, &h, "directed", &lines);
+    }
 }
 
 pub const RULE: &str = "cases = (a) every sequence of length <=L over {Online, Offline, own STATE offline, cancel} cut into bursts in every way (a burst = stimuli applied before any srad task runs, then run to quiescence), under an accept-all client and under a client that parks every subscribe (resolved in a closing burst), closing 1.1 s after a cancel; (b) hand-written races (back-to-back Online/Offline, stale session completing after a reconnect, parked birth, three cancels); (c) random cases: up to 14 lines, bursts of 1-4 of {on, off, own/foreign STATE online/offline, node message, invalid publish, cancel, resolve of a parked call ok/err}, per line a random policy accept/reject/park for subscribe and STATE publish and accept/reject for disconnect, 400 ms / 1.1 s advances, random configurations and host ids, non-monotone mock clock. Each line is admitted by the Lean LTS (some interleaving produces exactly the observed tokens). A case is non-trivial if a session was opened (a subscribe was observed); distinct = distinct op-line sequences (hashed).";
